@@ -30,7 +30,7 @@ class C16(Driver):
                    "TCP loopback is out of scope (delivery is not synchronous with send); AF_UNIX shares the net.c stream paths",
                    "an injected EAGAIN/short count is always followed by a synthetic epoll edge; readiness may be "
                    "delayed or reordered but is never dropped"]
-    required_probes = ["partial_write_resumed", "eagain_then_edge", "chunk_across_events", "op_waited"]
+    required_probes = ["partial_write_resumed", "eagain_then_edge", "chunk_across_events", "op_waited", "datagram_received_and_attributed"]
     timeout_ms = 20000
 
     # ---------------- generation ----------------
@@ -45,7 +45,9 @@ class C16(Driver):
                 if r.random() < 0.5:
                     p[k] = r.choice([0.02, 0.1, 0.3])
         knobs = {"seed": seed, "p": p, "pipe_size": cap, "sock_buf": cap, "max_yields": 1500000}
-        mode = r.choices(["single", "single", "single", "multi_r", "multi_w"], k=1)[0]
+        mode = r.choices(["single", "single", "single", "multi_r", "multi_w", "dgram"], k=1)[0]
+        if mode == "dgram":
+            return self.gen_dgram(seed, r, knobs)
         nsd = 1 if mode != "single" else r.randint(1, 3)
         sds, tasks = [], []
         tid = 0
@@ -132,8 +134,88 @@ class C16(Driver):
         flavour = "asan" if r.random() < 0.15 else "plain"
         return {"property": "C16", "knobs": knobs, "mode": mode, "sds": sds, "tasks": tasks, "flavour": flavour}
 
+    def gen_dgram(self, seed, r, knobs):
+        """unix datagram socket: 1-3 sender fibers, one receiver; every datagram is a distinct slice of the
+        sender's tag stream, so a received datagram names the send it came from"""
+        senders = []
+        for w in range(r.randint(1, 3)):
+            off, grams = 0, []
+            for _ in range(r.randint(1, 8)):
+                n = r.choice([1, 2, 16, 100, 512, 1000, 2000])
+                grams.append({"off": off, "n": n, "sleep": r.choice([0, 0, 0, 1])})
+                off += n + r.choice([0, 3])
+            senders.append({"w": 100 + w, "grams": grams})
+        total = sum(len(x["grams"]) for x in senders)
+        return {"property": "C16", "knobs": knobs, "mode": "dgram", "senders": senders,
+                "recv_buf": r.choice([2048, 4096, 65536]), "recvs": total + r.choice([0, 0, 1]), "sds": [], "tasks": [],
+                "flavour": "plain"}
+
+    def render_dgram(self, plan):
+        L = []
+        A = L.append
+        A("(var srv nil) (var name nil)")
+        A("(defn rx []")
+        A("  (for i 0 %d" % plan["recvs"])
+        A("    (def b @\"\")")
+        A("    (def [ok v] (protect (ev/with-deadline 0.5 (net/recv-from srv %d b))))" % plan["recv_buf"])
+        A("    (if ok (sim/ev :dg (length b) %s)" % " ".join("(sim/locate %d b 0 20000)" % x["w"] for x in plan["senders"]))
+        A("      (do (sim/ev :rxerr v) (break))))")
+        A("  (sim/ev :rxdone))")
+        for i, sn in enumerate(plan["senders"]):
+            A("(defn tx%d []" % i)
+            A("  (def c (net/connect :unix name :datagram))")
+            for k, g in enumerate(sn["grams"]):
+                if g["sleep"]:
+                    A("  (ev/sleep %s)" % (g["sleep"] / 1000.0))
+                A("  (sim/ev :inv %d %d)" % (i, k))
+                A("  (try (do (ev/write c (sim/fill %d %d %d)) (sim/ev :ret %d %d :ok)) ([e] (sim/ev :ret %d %d :err e)))"
+                  % (sn["w"], g["off"], g["n"], i, k, i, k))
+            A("  (:close c) (sim/ev :txdone %d))" % i)
+        A("(ev/go (fn [] (set name (string \"@jsim-dg-\" (os/getpid))) (set srv (net/listen :unix name :datagram))")
+        A("  (ev/go rx) %s))" % " ".join("(ev/go tx%d)" % i for i in range(len(plan["senders"]))))
+        return make_request(plan["knobs"], "\n".join(L))
+
+    def check_dgram(self, plan, res):
+        vs = []
+        if res.outcome not in ("ok", "deadlock"):
+            return [Violation("C16/run/%s" % res.outcome.split(":")[0], (res.log or "")[-600:])]
+        sent = {}
+        for i, sn in enumerate(plan["senders"]):
+            for k, g in enumerate(sn["grams"]):
+                sent[(sn["w"], g["off"], g["n"])] = (i, k)
+        invoked = {tuple(int(x) for x in e.payload.split(" ")) for e in res.events if e.kind == "inv"}
+        seen = set()
+        for e in res.events:
+            if e.kind != "dg":
+                continue
+            toks = e.payload.split(" ")
+            n = int(toks[0])
+            offs = [int(float(x)) for x in toks[1:]]
+            cands = [(sn["w"], off, n) for sn, off in zip(plan["senders"], offs) if off >= 0 and (sn["w"], off, n) in sent]
+            # datagrams shorter than 8 bytes can match by chance at several places: accept any sent one of that length
+            if n < 8:
+                cands = [k for k in sent if k[2] == n and k not in seen] or cands
+            if not cands:
+                vs.append(Violation("C16/datagram/received-datagram-is-not-one-that-was-sent",
+                                    "a datagram of %d bytes matches no sent datagram exactly (offsets %r)" % (n, offs)))
+                continue
+            key = cands[0]
+            if key in seen and n >= 8:
+                vs.append(Violation("C16/datagram/received-twice", "datagram %r" % (key,)))
+            if sent[key] not in invoked:
+                vs.append(Violation("C16/datagram/received-before-sent", "datagram %r" % (key,)))
+            seen.add(key)
+        out, sg = [], set()
+        for v in vs:
+            if v.sig not in sg:
+                sg.add(v.sig)
+                out.append(v)
+        return out
+
     # ---------------- rendering ----------------
     def render(self, plan):
+        if plan["mode"] == "dgram":
+            return self.render_dgram(plan)
         L = []
         A = L.append
         A("(def H @{})")   # handles: [:r sd] [:w sd] [:p sd]
@@ -251,6 +333,8 @@ class C16(Driver):
 
     # ---------------- oracle ----------------
     def check(self, plan, res):
+        if plan["mode"] == "dgram":
+            return self.check_dgram(plan, res)
         vs = []
         V = lambda sig, d="": vs.append(Violation(sig, d))
         oc = res.outcome
@@ -534,6 +618,7 @@ class C16(Driver):
         pr = dict(res.probes)
         fc = res.fault_counts
         return {"waited": self._waited(res), "mode": plan["mode"], "kinds": [s["kind"] for s in plan["sds"]],
+                "dg": sum(1 for e in res.events if e.kind == "dg"),
                 "partial": pr.get("short_write_injected", 0) + pr.get("natural_partial_write", 0),
                 "eagain": fc.get("eagain_r", 0) + fc.get("eagain_w", 0) + pr.get("natural_eagain_w", 0),
                 "chunks": sum(1 for t in plan["tasks"] for s in t["steps"] if s["op"] == "chunk" and s["n"] > 4096)}
@@ -546,7 +631,8 @@ class C16(Driver):
             for k in x["kinds"]:
                 kinds[k] = kinds.get(k, 0) + 1
         return {"probes": {"op_waited": sum(x["waited"] for x in ex), "partial_write_resumed": sum(x["partial"] for x in ex),
-                           "eagain_then_edge": sum(x["eagain"] for x in ex), "chunk_across_events": sum(x["chunks"] for x in ex)},
+                           "eagain_then_edge": sum(x["eagain"] for x in ex), "chunk_across_events": sum(x["chunks"] for x in ex),
+                           "datagram_received_and_attributed": sum(x.get("dg", 0) for x in ex)},
                 "plans_by_mode": modes, "streams_by_kind": kinds}
 
     # ---------------- shrinking ----------------
